@@ -32,6 +32,7 @@ worker_init = demux.worker_init
 W1 = "22f190"
 W2 = "3e00"
 PROGRAMS = {
+    "sr": [("sleep", 0.3), ("read", 1.0)],
     "wr": [("write", W1), ("read", 1.0)],
     "r": [("read", 1.0)],
     "ww": [("write", W1), ("write", W2)],
@@ -121,6 +122,14 @@ def items(tier: str, seed: int) -> list[Any]:
         for times, ack_at in (((1.2,), 2.4), ((0.8, 1.6), 2.6), ((1.2,), 1.8), ((1.0, 1.8), 1.9)):
             fr = [(filler, 1, t) for t in times] + [("ack1", 1, ack_at), ("data:7f2278", 1, ack_at)]
             add(fr, "wr", "frames")
+    # long histories: many frames pending while the client is idle / between a request and its ack (a bounded or
+    # lossy hand-over between the reader task and the consumers only shows beyond its capacity)
+    for n in (17, 33, 70, 130) if quick else (9, 17, 33, 65, 70, 129, 130, 300):
+        for filler in ("fdataS:aa", "data:62f190aa"):
+            add([(filler, 0)] * n + [("alive", 0)], "sr", "frames", b=0)
+            add([(filler, 0)] * n + [("alive", 0)], "sr", "one", b=1)
+            add([(filler, 1)] * n + [("ack1", 1), ("data:7f2278", 1)], "wr", "frames", b=0)
+            add([(filler, 1)] * n + [("ack1", 1), ("alive", 1), ("data:7f2278", 1)], "wr", "one", b=1)
     # conformance of the stream model against real loopback sockets / real timers (few: they take real seconds)
     conf = [
         ([("ack1", 1), ("data:62f190aa", 1)], "wr", "one"),
